@@ -28,6 +28,9 @@ def text_lines(rng, maxn=5, first_normal=True):
         k = rng.random()
         if i == 0 and first_normal:
             out.append(('N', words(rng)))
+        elif k > .97:
+            # a verbatim line that is nothing but a full stop (not the blank-line marker: it is indented further)
+            out.append(('V', rng.choice(['.', ' .', '. .'])))
         elif k < .6:
             out.append(('N', words(rng)))
         elif k < .8:
